@@ -7,12 +7,23 @@
          application having answered <calls> Value() calls before; inputs as in C12 (start r | prop .. | pv .. |
          pc .. | to k h r), words separated by '_' or ' '.
          Reply: one line per state machine call "<label> => <effects>", then
-                "= <height> <started 0/1> <calls> <n effects> <resume height if crashed at k> <good_run 0/1/-> <life_disc 0/1/-> <live_good of a restarted life 0/1/->", then "end".
+                "= <height> <started 0/1> <calls> <n effects> <resume height if crashed at k> <plain_run 0/1/-> <life_disc 0/1/-> <live_plain of a restarted life 0/1/-> <replay_quiet 0/1/->", then "end".
          k >= 0: the process is killed after its first k effects; the log directory becomes crash_at k.
          k = -1: clean run to the end of the inputs, directory unchanged (what-if run).
      verdict <h0>         -> "<no_conflict> <resume> <flush+logged>" on (effects before the last crash, last life)
      check <h0> ; <pre effects> ; <step> | <step> | ...   -> "<no_conflict> <resume> <flush_before_visible> <logged_first>"
-         the same extracted predicates on the implementation's observations *)
+         the same extracted predicates on the implementation's observations
+     flife <h> <calls> <fault> <input>/...|-      fault = fail:<k>:<performed 0/1>:<close ok 0/1> | cancel:<k>:<close ok 0/1>
+         a life that ends through the regular return path of driver.Run (Model.fault_outcome): the operation that
+         would be effect number k fails / the context is cancelled after k effects.  Reply as for life; the last
+         printed step carries "!<effect>" for the operation that failed without being performed (a refused commit
+         callback included), "!!" after an operation that was performed and reported failure.  Summary line:
+         "= <height> <started> <calls> <n effects performed> <resume height> <plain live phase 0/1/-> <life_disc> - <stop_ok 0/1> <script valid 0/1> <flushed 0/1> <stop/restart same state 0/1/->"
+         The model's log directory becomes end_disk.
+     disk                 -> "<pruned up to> <entry> ..." : LoadAllEntries of the model's current log directory
+     diskat <j>           -> the same for the directory as it is after the first j effects of the last life/flife
+     covers <lo> ; <effects> ; <entries>   -> "<log_covers_visible> <prunes_follow_cb> <clean_when_visible>" on the
+         implementation's effects and the entries read back from its log directory *)
 let ni s = n_of_int (int_of_string s)
 let zi s = z_of_int (int_of_string s)
 let sn x = string_of_int (int_of_n x)
@@ -124,7 +135,13 @@ let mk_env self h0 m invalid values dflt (blocks : block array) : env =
         c_value_at = (fun _ -> N0) };
     e_val = (fun _ _ n -> n_of_int values.(int_of_n n mod Array.length values)) }
 
+let last_effs : effect list ref = ref []         (* all effects of the fault-free version of the last life *)
+let last_dur : wrec list ref = ref []            (* the directory it booted on *)
+let show_disk (d : wrec list) =
+  String.concat " " (sn (pruned_upto d) :: List.map show_entry (load d))
+let rec drop_last = function [] -> [] | [_] -> [] | x :: r -> x :: drop_last r
 let env_ref : env option ref = ref None
+let det_ref = ref false                          (* Value() answers the same whenever it is asked: value_deterministic *)
 let durable : wrec list ref = ref []
 let pre_ref : effect list ref = ref []          (* effects before the last crash *)
 let post_ref : step_tr list ref = ref []        (* trace of the last life *)
@@ -144,6 +161,7 @@ let () =
           | _ -> failwith "block") (String.split_on_char '/' blocks)) in
         env_ref := Some (mk_env (int_of_string self) (int_of_string h0) (int_of_string m)
                            (List.map int_of_string (csv invalid)) (ints values) (int_of_string dflt) bl);
+        det_ref := (let v = ints values in Array.for_all (fun x -> x = v.(0)) v);
         durable := []; pre_ref := []; post_ref := []
     | "life" :: h :: calls :: k :: rest ->
         let e = Option.get !env_ref in
@@ -156,6 +174,7 @@ let () =
         let dur_before = !durable in
         let (d, tr) = lifetime e (ni h) !durable (ni calls) ins in
         let effs = flat tr in
+        last_effs := effs; last_dur := dur_before;
         (* print the steps; with a crash, only what happened before it (the step in which it died is cut) *)
         let budget = ref (if k < 0 then max_int else k) in
         let shown = ref [] in
@@ -177,14 +196,81 @@ let () =
           end else "-" in
         (* hypotheses of the theorems, evaluated on this life: plain run (only for a life on an empty log) and
            the calling discipline *)
-        let plain = if k < 0 && dur_before = [] && int_of_string calls = 0 then b01 (good_run e (ni h) ins) else "-" in
+        let plain = if k < 0 && dur_before = [] && int_of_string calls = 0 then b01 (plain_run e (ni h) ins) else "-" in
         let disc = if k < 0 then b01 (life_disc e (ni h) dur_before (ni calls) ins) else "-" in
         (* the live phase of a later life is plain: hypothesis of the step of Worlds *)
         let lg = if k < 0 && not (dur_before = [] && int_of_string calls = 0)
-                 then b01 (live_good e (fst (recover e (ni h) dur_before (ni calls))) ins) else "-" in
+                 then b01 (live_plain e (fst (recover e (ni h) dur_before (ni calls))) ins) else "-" in
+        (* no call of this recovery returns TriggerSync: the side condition of the st_sim statements *)
+        let rq = if dur_before = [] then "-" else b01 (replay_quiet e (ni h) dur_before (ni calls)) in
         print_endline ("= " ^ sn d.d_sm.s_h ^ " " ^ b01 d.d_sm.s_started ^ " " ^ sn d.d_calls ^ " " ^
-                       string_of_int (List.length effs) ^ " " ^ resume ^ " " ^ plain ^ " " ^ disc ^ " " ^ lg);
+                       string_of_int (List.length effs) ^ " " ^ resume ^ " " ^ plain ^ " " ^ disc ^ " " ^ lg ^ " " ^ rq);
         print_endline "end"; flush stdout
+    | "flife" :: h :: calls :: fs :: rest ->
+        let e = Option.get !env_ref in
+        let ins_s = String.concat " " rest in
+        let ins = if ins_s = "-" || ins_s = "" then [] else
+          List.map (fun s -> parse_input (List.filter (fun x -> x <> "")
+                      (String.split_on_char ' ' (String.map (fun c -> if c = '_' then ' ' else c) s))))
+            (String.split_on_char '/' ins_s) in
+        let f = match String.split_on_char ':' fs with
+          | ["fail"; k; p; c] -> FFail (nat_of_int (int_of_string k), p = "1", c = "1")
+          | ["cancel"; k; c] -> FCancel (nat_of_int (int_of_string k), c = "1")
+          | _ -> failwith ("fault: " ^ fs) in
+        let dur_before = !durable in
+        let (d, tr) = lifetime e (ni h) dur_before (ni calls) ins in
+        let effs = flat tr in
+        last_effs := effs; last_dur := dur_before;
+        let o = fault_outcome tr f in
+        let performed = (match f with FFail (_, p, _) -> p | _ -> false) in
+        let mark = match o.o_failed with
+          | None -> []
+          | Some x -> if performed then ["!!"] else ["!" ^ show_effect x] in
+        let n = List.length o.o_steps in
+        List.iteri (fun i (l, es) ->
+          let ws = List.map show_effect es @ (if i = n - 1 then mark else []) in
+          print_endline (show_label l ^ " => " ^ (if ws = [] then "-" else String.concat " " ws))) o.o_steps;
+        post_ref := o.o_steps;
+        let pre = flat o.o_steps in
+        let k = List.length pre in
+        let kn = nat_of_int k in
+        let resume = resume_height (ni h) pre in
+        let newdisk = end_disk o.o_flushed kn effs dur_before in
+        durable := newdisk; pre_ref := pre;
+        let fresh = (dur_before = [] && int_of_string calls = 0) in
+        let plain = if fresh then b01 (plain_run e (ni h) ins)
+                    else b01 (live_plain e (fst (recover e (ni h) dur_before (ni calls))) ins) in
+        (* the theorem's side condition on where a flushing stop happens; a failing SetWALEntry at the head of a call
+           is the end of the life that did not get that input *)
+        let sok = stop_ok dur_before effs kn ||
+                  (match f, o.o_failed with
+                   | FFail (_, false, _), Some (Append _) when ins <> [] ->
+                       let tr' = snd (lifetime e (ni h) dur_before (ni calls) (drop_last ins)) in
+                       List.length (flat tr') = k
+                   | _ -> false) in
+        (* C13_stop_restart_same_state on the model: the whole life ran, Close flushed, restart at the resume height *)
+        let same = if !det_ref && o.o_flushed && k = List.length effs && plain = "1"
+                      && replay_quiet e (ni h) dur_before (ni calls)
+                      && replay_quiet e resume newdisk N0
+                   then b01 (st_sim_b (fst (recover e resume newdisk N0)).d_sm d.d_sm) else "-" in
+        print_endline ("= " ^ sn d.d_sm.s_h ^ " " ^ b01 d.d_sm.s_started ^ " " ^ sn d.d_calls ^ " " ^
+                       string_of_int k ^ " " ^ sn resume ^ " " ^ plain ^ " - - " ^ b01 sok ^ " " ^ b01 o.o_valid ^ " " ^
+                       b01 o.o_flushed ^ " " ^ same);
+        print_endline "end"; flush stdout
+    | ["disk"] -> print_endline (show_disk !durable); flush stdout
+    | ["diskat"; j] ->
+        print_endline (show_disk (crash_at (nat_of_int (int_of_string j)) !last_effs !last_dur)); flush stdout
+    | "covers" :: lo :: rest ->
+        let s = String.concat " " rest in
+        (match String.split_on_char ';' s with
+         | [_; effs; ents] ->
+             let effs = List.map parse_effect (wsplit effs) in
+             let ents = List.map parse_entry (wsplit ents) in
+             print_endline (String.concat " " [
+               b01 (log_covers_visible (ni lo) effs ents);
+               b01 (prunes_follow_cb None effs);
+               b01 (clean_when_visible false effs)]); flush stdout
+         | _ -> failwith "covers")
     | ["verdict"; h0] ->
         print_endline (show_verdict (verdict (ni h0) !pre_ref !post_ref)); flush stdout
     | "check" :: h0 :: rest ->
